@@ -55,6 +55,15 @@ func (compactEngine) Generate(rng *rand.Rand, prop string, thorough bool) *Plan 
 	if rng.Intn(3) != 0 {
 		cfg.BgCompactMs, cfg.TickProb = 0, 0
 	}
+	// 1 run in 4: a key set that overflows one bucket chain (> 31 colliding keys), so that compaction has to
+	// find records indexed in overflow buckets, behind holes that deletes leave in earlier buckets
+	chain := rng.Intn(4) == 0
+	if chain {
+		cfg.NKeys = []int{34, 40, 48, 64}[rng.Intn(4)]
+		cfg.Family = int(KFLowBits)
+		cfg.MaxSeg = []uint32{1024, 2048, 4096}[rng.Intn(3)]
+		cfg.FSYields = false
+	}
 	p := &Plan{Property: prop, Engine: "compact", Cfg: cfg}
 	keys := GenKeys(rng, KeyFamily(cfg.Family), cfg.NKeys, cfg.HashSeed)
 	p.Cfg.NKeys = len(keys)
@@ -67,7 +76,18 @@ func (compactEngine) Generate(rng *rand.Rand, prop string, thorough bool) *Plan 
 		all[i] = i
 	}
 	sizes := []int{12, 16, 40, 100, 200}
-	p.Epochs = [][]Op{genClient(rng, cfg, 5+rng.Intn(40), map[string]int{"put": 60, "del": 25, "sync": 2}, all, &id, sizes)}
+	var pre []Op
+	if chain {
+		sizes = []int{12, 12, 16, 30}
+		for _, k := range rng.Perm(cfg.NKeys) {
+			id++
+			pre = append(pre, Op{K: "put", Key: k, ID: id, Size: sizes[rng.Intn(len(sizes))]})
+		}
+		for d := rng.Intn(6); d > 0; d-- {
+			pre = append(pre, Op{K: "del", Key: rng.Intn(cfg.NKeys)})
+		}
+	}
+	p.Epochs = [][]Op{append(pre, genClient(rng, cfg, 5+rng.Intn(40), map[string]int{"put": 60, "del": 25, "sync": 2}, all, &id, sizes)...)}
 	nw := 1 + rng.Intn(2)
 	parts := splitKeys(cfg.NKeys, nw)
 	for w := 0; w < nw; w++ {
